@@ -187,6 +187,8 @@ class StandardFuncs(SnowfakeryPlugin):
             timezone = _normalize_timezone(timezone)
             if end_date < start_date:
                 raise DataGenError("End date is before start date")
+            if end_date == start_date:
+                return start_date.astimezone(timezone) if timezone else start_date
 
             return self._faker_for_dates.date_time_between(
                 start_date, end_date, tzinfo=timezone
